@@ -37,6 +37,8 @@ def _fix_for_cvc5(text: str) -> str:
         'seq.indexof': 'str.indexof',
         'seq.at': 'str.at',
         'seq.replace': 'str.replace',
+        'seq.nth_i': 'seq.nth',
+        'seq.nth_u': 'seq.nth',
     }
     for a, b in rep.items():
         text = text.replace('(' + a + ' ', '(' + b + ' ')
